@@ -883,6 +883,16 @@ impl<S: BitmapSlice + Send + Sync> PassthroughFs<S> {
         Ok(())
     }
 
+    /// Verification hook (H2), read-only: sizes of the tables
+    /// `(inodes, by_id, by_handle, handles, cookies, mount_fds)`.
+    #[cfg(fuse_backend_rs_verif)]
+    pub fn verif_table_sizes(&self) -> (usize, usize, usize, usize, usize, usize) {
+        let (inodes, by_id, by_handle) = self.inode_map.inodes.read().unwrap().verif_sizes();
+        let handles = self.handle_map.handles.read().unwrap().len();
+        let cookies = self.handle_map.cookies.lock().unwrap().len();
+        (inodes, by_id, by_handle, handles, cookies, self.mount_fds.verif_len())
+    }
+
     fn get_writeback_open_flags(&self, flags: i32) -> i32 {
         let mut new_flags = flags;
         let writeback = self.writeback.load(Ordering::Relaxed);
